@@ -36,7 +36,7 @@ from collada.common import E
 from collada.common import tag
 from collada.util import toUnitVec
 from collada.util import parseFloatArray
-from collada.util import _syncChildren
+from collada.util import _syncChildren, _setAttribute
 from collada.xmlutil import etree as ElementTree
 
 
@@ -728,7 +728,7 @@ class MaterialNode(SceneNode):
 
     def save(self):
         """Saves the material node back to :attr:`xmlnode`"""
-        self.xmlnode.set('symbol', self.symbol)
+        _setAttribute(self.xmlnode, 'symbol', self.symbol)
         self.xmlnode.set('target', "#%s" % self.target.id)
 
         inputnodes = self.xmlnode.findall(tag('bind_vertex_input'))
@@ -1001,7 +1001,7 @@ class Scene(DaeObject):
 
     def save(self):
         """Saves the scene back to :attr:`xmlnode`"""
-        self.xmlnode.set('id', self.id)
+        _setAttribute(self.xmlnode, 'id', self.id)
         for node in self.nodes:
             node.save()
         _syncChildren(self.xmlnode, [n.xmlnode for n in self.nodes])
